@@ -23,7 +23,9 @@
    per-goroutine event queues) are validated by ChanTrace.tla, which looks for an interleaving that is a
    behaviour of the contract and ends with the receiver holding the last value.
 5. SeqWaiters.tla (db_sequences_wait_tracker.go + GetSequenceUpdates): Subscribe / Put / Close / Drain with the
-   tracker's id -> waiter map; LatestKept (a live subscriber has read the latest key of its prefix or it is
+   tracker's id -> waiter map and the uint64 suffixes of the generated keys (a new subscriber is handed the
+   highest existing key of the scanned suffix range, which has to be 0 .. 2^64-1: one prefix of the model jumps
+   to 2^63-1 with its first put; the mutant that scans below MaxInt64 must be caught); LatestKept (a live subscriber has read the latest key of its prefix or it is
    waiting in its channel), LiveRegistered, ClosedSilent, CloseIndependent; the mutant "id = len(map)+1" must be
    caught; every transition and long runs are replayed on a real kv.DB (GetSequenceUpdates, sequence puts through
    ProcessWrite, SequenceWaiter.Close, non-blocking channel reads); random lifecycles are judged by SeqWaitTrace.
@@ -157,6 +159,13 @@ def _overflow_finding(ctx, binp, hits):
         ctx.log("%d overflowing request(s) are no longer treated by wrapping, e.g. %s -> %s" % (len(other), other[0]["req"], other[0]["err"][:300]))
 
 
+def _call(s):
+    d = "".join(chr(c) for c in s.get("d") or []).lstrip("0")
+    if s["a"] == "Put" and d not in ("", "1"):
+        return "Put(%s,delta=%s)" % (s["p"], d)
+    return "%s(%s)" % (s["a"], s["p"] or (s["w"] or ""))
+
+
 def _seq_waiters(ctx, quick):
     """SeqWaiters.tla: the subscribers of sequence updates (wait tracker + GetSequenceUpdates) on a real kv.DB."""
     import json
@@ -165,6 +174,9 @@ def _seq_waiters(ctx, quick):
     r = ctx.tlc("SeqWaiters", "seqw-mutant-id.cfg", label="seqw-mutant", allow_violation=True, heap="2g")
     if not r.violated:
         raise vf.Inconclusive("the id-from-map-size mutant of SeqWaiters.tla is not caught: the properties are vacuous")
+    r = ctx.tlc("SeqWaiters", "seqw-mutant-scan.cfg", label="seqw-mutant-scan", allow_violation=True, heap="2g")
+    if not r.violated:
+        raise vf.Inconclusive("the mutant of SeqWaiters.tla whose initial read stops below MaxInt64 is not caught: no sequence of the model passes 2^63")
     wbin = ctx.go_build("seqwait")
 
     def replay_on_db(cfg, tag, label, **kw):
@@ -180,7 +192,7 @@ def _seq_waiters(ctx, quick):
                 (res["behaviours"], res["steps"], label, len(res["mismatches"])))
         for i, mm in enumerate(res["mismatches"]):
             p = ctx.save_replay("seqw-%s-%d.json" % (label, i), mm)
-            calls = " ".join("%s(%s)" % (s["a"], s["p"] or (s["w"] or "")) for s in mm["behaviour"])
+            calls = " ".join(_call(s) for s in mm["behaviour"])
             ctx.violation("sequence-update subscribers of the real kv.DB deviate from SeqWaiters.tla at step %d of [%s]: %s"
                           % (mm["step"], calls, mm["what"]), p)
         return path
@@ -214,8 +226,8 @@ def _seq_waiters(ctx, quick):
         calls = [json.loads(x) for x in lines[start + 1: bad + 1]]
         p = ctx.save_replay("seqw-trace-line%d.json" % bad, {"behaviour": calls, "step": len(calls) - 1,
                             "what": "recorded call is not a step of SeqWaiters.tla (observed fields are those of the real kv.DB)"})
-        ctx.violation("real subscriber lifecycle rejected by SeqWaitTrace at call #%d %s: observed %s" %
-                      (len(calls) - 1, calls[-1]["a"], json.dumps(calls[-1])), p)
+        ctx.violation("real subscriber lifecycle [%s] rejected by SeqWaitTrace at call #%d %s: observed %s" %
+                      (" ".join(_call(c) for c in calls)[-600:], len(calls) - 1, calls[-1]["a"], json.dumps(calls[-1])), p)
 
 
 def replay(ctx, path):
